@@ -628,6 +628,12 @@ func (fr *fileReader) ReadAt(p []byte, off int64) (n int, err error) {
 		if !e.isDataType() {
 			continue
 		}
+		if e.Type == "reg" && e.Size == 0 {
+			// An empty file has no payload (and no offset): it is part of no stream.
+			// Without this, it was taken for a member of a stream that begins at
+			// blob offset 0 (innerOffset 0 < current position => read error).
+			continue
+		}
 		if e.Offset != fr.r.toc.Entries[ent.chunkTopIndex].Offset {
 			break
 		}
